@@ -8,17 +8,20 @@ PROP = "C03"
 RULE = ("every (array, index, rhs shape/kind, inplace, cast) scenario enumerated by TLC from spec/MC_C03.tla, replayed through "
         "a[idx]=v / put / .ix / .iloc / .loc / a.values=v; distinct = scenario lines")
 ASSUMPTIONS = ["list indices have no repeats when the right-hand side is an array",
-               "cast=False only for same-kind and float<-int assignments"]
+               "cast=False only for same-kind and float<-int assignments",
+               "a failed in-place cast=True assignment may have widened the dtype already (cell values, labels and metadata must be unchanged)"]
 
 FLOORS = {"fam=forms": (1000, 1000), "fam=dtypes": (100, 100), "fam=mask": (500, 500), "fam=values": (40, 40),
           "rhs=scalar": (500, 500), "rhs=full": (500, 500), "rhs=bcast": (200, 200), "inplace=False": (500, 500),
-          "cast=True": (100, 100), "expect=IndexError": (50, 50), "mode=position": (500, 500), "pair": (16, 16)}
+          "cast=True": (100, 100), "expect=IndexError": (50, 50), "mode=position": (500, 500), "pair": (16, 16),
+          "fam=points": (1000, 1000), "points/cast": (200, 200), "points/rhs=array": (100, 100), "points/slice-dim": (100, 100),
+          "points/mask": (100, 100), "points/3d": (100, 100)}
 
 
 def tlc_jobs(tier, seed):
-    consts = dict(U={2, 4, 6}, Full2D=(tier != "quick"), Emit=True)
+    consts = dict(U={2, 4, 6}, Full2D=(tier != "quick"), Emit=True, PtLens=({2} if tier == "quick" else {2, 3}))
     return [dict(tag=tier, module="MC_C03",
-                 cfg=dict(constants=consts, invariants=["Frame", "ReadBack", "ErrIffReadErr"]),
+                 cfg=dict(constants=consts, invariants=["Frame", "ReadBack", "ErrIffReadErr", "PointsFrame", "PointsReadBack", "PointsErr"]),
                  run=dict(timeout=3000))]
 
 
@@ -26,7 +29,7 @@ def _rhs_class(i):
     sh = i["rhs"]["shape"]
     if sh == []:
         return "scalar"
-    if i["fam"] in ("mask",):
+    if i["fam"] in ("mask", "points"):
         return "full"
     return "full" if 1 not in sh and len(sh) == sum(1 for ix in i["idxs"] if ix["k"] != "sc") else "bcast"
 
@@ -37,6 +40,17 @@ def classify(scn):
            "expect=" + ("ok" if scn["out"]["r"]["ok"] else scn["out"]["r"]["err"])]
     if i["fam"] == "dtypes" and i["cast"]:
         out.append("pair/%s<-%s" % (i["a"]["dtype"], i["rhs"]["kind"]))
+    if i["fam"] == "points":
+        if i["cast"]:
+            out.append("points/cast")
+        if i["rhs"]["shape"]:
+            out.append("points/rhs=array")
+        if any(ix["k"] == "all" for ix in i["idxs"]):
+            out.append("points/slice-dim")
+        if any(ix["k"] == "mk" for ix in i["idxs"]):
+            out.append("points/mask")
+        if len(i["idxs"]) == 3:
+            out.append("points/3d")
     return out
 
 
@@ -67,6 +81,11 @@ def _eq(x, y):
     return type(x) is type(y) and x == y or (not isinstance(x, str) and not isinstance(y, str) and x == y)
 
 
+def _nodtype(snap, cast):
+    """a failed cast=True assignment may already have widened the dtype (values equal): the property does not forbid that"""
+    return (snap[:2] + snap[3:]) if cast else snap
+
+
 def _spellings(i):
     fam, mode, ip, cast = i["fam"], i["mode"], i["inplace"], i["cast"]
     if fam == "values":
@@ -76,6 +95,10 @@ def _spellings(i):
         if ip and not cast:
             sp += ["setitem_mask", "setitem_mask_dimarray"]
         return sp
+    if fam == "points":
+        # pointwise (NumPy-style) assignment: put(..., broadcast=True).  (The 'indexing.broadcast' option is dead in the
+        # pinned code - the class attribute _broadcast=False shadows it - so there is no option spelling.)
+        return ["putb", "putb_dict"] if mode == "label" else ["putb_position"]
     if mode == "label":
         sp = ["put", "put_dict"]
         if ip and not cast:
@@ -101,6 +124,13 @@ def _do(a, sp, i, tup, rhs):
             return a.put(m, rhs, **kw)
         a[m] = rhs
         return None
+    if sp == "putb":
+        return a.put(tup, rhs, broadcast=True, **kw)
+    if sp == "putb_dict":
+        d = {dims[k]: tup[k] for k, ix in enumerate(i["idxs"]) if ix["k"] != "all"}
+        return a.put(d, rhs, broadcast=True, **kw)
+    if sp == "putb_position":
+        return a.put(tup, rhs, indexing="position", broadcast=True, **kw)
     if sp == "put":
         return a.put(tup, rhs, **kw)
     if sp == "put_dict":
@@ -132,6 +162,8 @@ def replay(scn):
     kind_variants = [("i", 0)]
     if i["fam"] == "forms" and i["mode"] == "label":
         kind_variants = [("i", 0), ("f", 0), ("s", 0), ("i", -4)]
+    if i["fam"] == "points" and i["mode"] == "label":
+        kind_variants = [("i", 0), ("s", 0)]
     for vi, (kind, off) in enumerate(kind_variants):
         kinds = [kind] * nd
         codec = A.LabelCodec(offset=off)
@@ -158,7 +190,7 @@ def replay(scn):
                     what = "expected %s, assignment succeeded" % r["err"]
                 elif not isinstance(err, IndexError):
                     what = "expected %s, got %s: %s" % (r["err"], type(err).__name__, str(err)[:200])
-                elif A.snapshot(a) != before:
+                elif _nodtype(A.snapshot(a), i["cast"]) != _nodtype(before, i["cast"]):
                     what = "array changed by a failed assignment"
             elif err is not None:
                 what = "expected success, got %s: %s" % (type(err).__name__, str(err)[:200])
@@ -197,6 +229,15 @@ def replay(scn):
                             what = "read-back: expected %s got %s" % (expv, actv)
                     except Exception as ex:  # noqa
                         what = "read-back raised %s: %s" % (type(ex).__name__, str(ex)[:200])
+            if what is None and i["fam"] == "points" and err is None and exp["pts"]["ok"]:
+                try:
+                    rb = res.take(tup, indexing=i["mode"], broadcast=True)
+                    expv = [A.cell_enc(c, i["rhs"]["kind"]) if c > 900 else A.cell_enc(c, a_abs["dtype"]) for c in exp["pts"]["val"]]
+                    actv = np.asarray(rb.values if isinstance(rb, A.DimArray) else rb).ravel().tolist()
+                    if len(expv) != len(actv) or not all(_eq(x, y) for x, y in zip(expv, actv)):
+                        what = "pointwise read-back: expected %s got %s" % (expv, actv)
+                except Exception as ex:  # noqa
+                    what = "pointwise read-back raised %s: %s" % (type(ex).__name__, str(ex)[:200])
             if what:
                 viol.append(dict(what=what, sig=signature(scn, sp + ("/zero" if zero else ""), kind), variant="kind=%s spelling=%s zero=%s" % (kind, sp, zero)))
     return dict(violations=viol, calls=calls)
